@@ -1,6 +1,7 @@
 package iscp
 
 import (
+	"context"
 	"fmt"
 	"time"
 
@@ -148,7 +149,10 @@ func (c *ConnConfig) toDialer() (transport.Dialer, error) {
 	}
 }
 
-func (c *ConnConfig) connectWire() (*wire.ClientConn, error) {
+// connectWire dials and performs the iSCP connect exchange. When ctx ends while the exchange is still waiting for the
+// broker's ConnectResponse, the transport is closed and the attempt fails (reconnect passes a context that ends when
+// the connection is closed, so that Close never waits for a silent broker).
+func (c *ConnConfig) connectWire(ctx context.Context) (*wire.ClientConn, error) {
 	token, err := c.TokenSource.Token()
 	if err != nil {
 		return nil, errors.Errorf("failed to fetch token: %w", err)
@@ -172,6 +176,8 @@ func (c *ConnConfig) connectWire() (*wire.ClientConn, error) {
 		Encoding:       enc,
 		MaxMessageSize: 0,
 	})
+	stop := context.AfterFunc(ctx, func() { tr.Close() })
+	defer stop()
 	conn, err := wire.Connect(&wire.ClientConnConfig{
 		Transport:           wtr,
 		UnreliableTransport: unreliableOrNil(tr),
